@@ -373,7 +373,7 @@ pub fn skeleton_fillers() -> Vec<Snippet> {
     ]
 }
 
-pub const N_SKELETONS: usize = 14;
+pub const N_SKELETONS: usize = 16;
 
 /// Build skeleton `k` with slots `s` (4 entries, indices into fillers).
 pub fn skeleton(k: usize, s: &[usize]) -> Program {
@@ -557,6 +557,35 @@ pub fn skeleton(k: usize, s: &[usize]) -> Program {
             b.extend(sl(2));
             b.push(lw(S0, 0, SP));
             b.push(addi(SP, SP, 8));
+            b.extend(sl(3));
+        }
+        14 => {
+            // a cycle two of whose edges point backwards in program order: L1 -> L2 -> L3 -> L1
+            // (facts need two sweeps to travel round it)
+            b.push(label("L1"));
+            b.extend(sl(0));
+            b.push(br(BOp::Beq, T0, T1, "L2"));
+            b.extend(sl(1));
+            b.push(li(A7, 10));
+            b.push(ecall());
+            b.push(label("L3"));
+            b.extend(sl(2));
+            b.push(j("L1"));
+            b.push(label("L2"));
+            b.extend(sl(3));
+            b.push(j("L3"));
+        }
+        15 => {
+            // a loop L1 -> L2 -> L1 entered in its middle by a later jump that writes a register
+            b.push(j("L3"));
+            b.push(label("L1"));
+            b.extend(sl(0));
+            b.push(label("L2"));
+            b.extend(sl(1));
+            b.push(j("L1"));
+            b.push(label("L3"));
+            b.push(inst(Inst::Jal(T2, "L2".into())));
+            b.extend(sl(2));
             b.extend(sl(3));
         }
         _ => {
